@@ -27,5 +27,6 @@ def run(prog, chk, tier):
 
     c08.frame_builder_rules(prog, chk, "C02")
     c08.frame_parser_rules(prog, chk, "C02")
+    bec2.selector_rules(prog, chk, "C02")
     stackrt.guarded(chk, "C02.stack-bec2", stackbec2.bec2_file_rules, prog, chk, "C02", tier, want=("roundtrip", "same-key"))
     chk.assume("session keys are KEY_SIZE = 16 bytes (Bec2File draws random_bytes(16)); BF3 body clauses are decided under C01/C03/C05")
